@@ -25,14 +25,20 @@ def outJson (r : Run Int) : List (String × Json) := [
     ("out", Json.arr (r.out.map fun b => Json.arr (b.map colJson).toArray).toArray),
     ("err", Driver.optErrJson r.err)]
 
-/-- the library of row functions shared with `harness/props/c19.py` (`ROW_FNS`) -/
-def rowFn : String → Except String (List Int → List Int)
-  | "id" => .ok id
-  | "sum" => .ok fun r => [r.sum]
-  | "rev" => .ok List.reverse
-  | "dup" => .ok fun r => r ++ r
-  | "affine" => .ok fun r => r.map fun x => 2 * x + 1
-  | "first" => .ok fun r => [r.headD 0]
+/-- the library of row functions shared with `harness/props/c19.py` (`ROW_FNS`): every input row
+yields a list of output rows (exactly one for the row-preserving functions) -/
+def rowFn : String → Except String (List Int → List (List Int))
+  | "id" => .ok fun r => [r]
+  | "sum" => .ok fun r => [[r.sum]]
+  | "rev" => .ok fun r => [r.reverse]
+  | "dup" => .ok fun r => [r ++ r]
+  | "affine" => .ok fun r => [r.map fun x => 2 * x + 1]
+  | "first" => .ok fun r => [[r.headD 0]]
+  -- row-count-changing functions
+  | "twice" => .ok fun r => [r, r]                                        -- every row twice
+  | "keep_even" => .ok fun r => if r.headD 0 % 2 = 0 then [r] else []    -- filter
+  | "explode" => .ok fun r => List.replicate ((r.headD 0 % 3).toNat) r    -- 0, 1 or 2 copies
+  | "none" => .ok fun _ => []                                             -- drops everything
   | s => .error s!"bad row function {s}"
 
 /-- `{"model":"rebatch","target":t,"ncols":n,"pad":p|null,"batches":[[{"k":kind,"r":[..]},..],..]}`
@@ -49,7 +55,7 @@ def handle (j : Json) : Except String Json := do
     -- `Select` has no function at all (`_identity_fn`): the batch passes through untouched
     let ident := (j.getObjValAs? Bool "ident").toOption.getD false
     let r := if ident then treeFn fb target ncols ncols id bs
-             else treeFn fb target ncols kinds.length (mapRows g kinds) bs
+             else treeFn fb target ncols kinds.length (flatMapRows g kinds) bs
     return Json.mkObj (outJson r)
   | .ok op => throw s!"bad op {op}"
   | .error _ =>
